@@ -395,7 +395,15 @@ pub fn run_case(p: &Profile, case: &CaseA, case_seed: u64, nthreads: usize) -> E
 }
 
 pub fn run(prop: &str, thorough: bool, case_seed: u64) -> ExecOut {
-    let p = profile(thorough, prop == "C02");
+    let mut p = profile(thorough, prop == "C02");
+    if prop == "C17" {
+        // fairness under wake-ups from other threads: merges with one or two always-ready inputs
+        p.fams = vec![Fam::Merge];
+        p.conts = vec![Cont::Tuple, Cont::Array, Cont::Vec, Cont::Ext];
+        p.always_ready = true;
+        p.nested_pct = 0;
+        p.max_items = 6;
+    }
     reset(Src::Rng(case_seed), true);
     let (case, nthreads) = w(|w| {
         w.record_decisions = false;
